@@ -14,6 +14,10 @@ package domains
 //@ method (*withDomain).Unwrap
 //@   props C07 C10 C14
 //@   ensures result == self.cause
+//@ method (*withDomain).SafeFormatError
+//@   props C09
+//@   requires p != nil
+//@   ensures result == self.cause
 
 //@ spec func domainOf(e error) Domain
 
